@@ -44,6 +44,7 @@ pub enum Q {
   LeapMonth(i64),
   Pillar(i64, i64),
   Clock(i64, i64),
+  HolidayNext(i64, i64),
 }
 
 impl Q {
@@ -72,6 +73,7 @@ impl Q {
       Q::LeapMonth(y) => format!("LunarYear({}).get_leap_month()", y),
       Q::Pillar(i, n) => format!("SixtyCycle({}).next({})", i, n),
       Q::Clock(a, n) => format!("{}.next({}) / subtract", fmt_abs(*a), n),
+      Q::HolidayNext(n, k) => format!("{}.get_legal_holiday().next({})", cal::fmt_dn(*n), k),
     }
   }
 
@@ -139,8 +141,13 @@ impl Q {
       Q::Almanac(n) => {
         let l = sd_of_dn(*n).get_lunar_day();
         let names = |v: Vec<String>| v.join(",");
+        let scd = sd_of_dn(*n).get_sixty_cycle_day();
         format!(
-          "{} {} {} {} {} | {} | {} | {}",
+          "{} {} {} {} / {} {} {} {} {} | {} | {} | {}",
+          scd.get_duty().get_name(),
+          scd.get_twelve_star().get_name(),
+          scd.get_twenty_eight_star().get_name(),
+          scd.get_nine_star().get_name(),
           l.get_duty().get_name(),
           l.get_twelve_star().get_name(),
           l.get_twenty_eight_star().get_name(),
@@ -187,6 +194,10 @@ impl Q {
         let x = st.next(*n as isize);
         format!("{} {} {}", x, x.subtract(st), x.get_julian_day().get_day().to_bits())
       }
+      Q::HolidayNext(n, k) => match sd_of_dn(*n).get_legal_holiday().and_then(|h| h.next(*k as isize)) {
+        Some(h) => format!("{} {} {}", fmt_ymd(ymd(&h.get_day())), h.is_work(), h.get_name()),
+        None => "none".into(),
+      },
     });
     match r {
       Ok(s) => s,
@@ -342,7 +353,7 @@ fn related_query(q: &Q, rng: &mut Rng) -> Q {
   // the day a query is about, where it has one
   let day_of = |q: &Q| -> Option<i64> {
     match q {
-      Q::TermDay(n) | Q::Week(n, _) | Q::JdDay(n, _) | Q::Holiday(n) | Q::Almanac(n) | Q::Series(n) | Q::SolarToLunar(n) | Q::SixtyDay(n) => Some(*n),
+      Q::TermDay(n) | Q::Week(n, _) | Q::JdDay(n, _) | Q::Holiday(n) | Q::HolidayNext(n, _) | Q::Almanac(n) | Q::Series(n) | Q::SolarToLunar(n) | Q::SixtyDay(n) => Some(*n),
       Q::HourAlmanac(a) | Q::Clock(a, _) | Q::EightChar(a) | Q::ChildLimit(a, _) => Some(a.div_euclid(86400)),
       _ => None,
     }
@@ -399,6 +410,7 @@ fn related_query(q: &Q, rng: &mut Rng) -> Q {
       _ => Q::LunarFestDate(*y, rng.range(1, 12), *d),
     },
     Q::Holiday(n) => Q::Holiday((n + *rng.pick(&[0i64, 1, -1, 7, 30, 365, -365, 6, -6])).clamp(c.dn(2000, 1, 1), c.dn(2027, 1, 1))),
+    Q::HolidayNext(n, k) => Q::HolidayNext((n + *rng.pick(&[0i64, 1, -1, 365, -365, 730])).clamp(c.dn(2001, 1, 1), c.dn(2026, 1, 1)), if rng.chance(1, 2) { *k } else { *rng.pick(&[1i64, -1, 2, 40, -40]) }),
     Q::Almanac(n) => Q::Almanac(rd(rng, *n)),
     Q::Series(n) => Q::Series(rd(rng, *n)),
     Q::LeapMonth(y) => Q::LeapMonth(ry(rng, *y)),
@@ -958,6 +970,146 @@ fn m5b(log: &mut Log) {
   }
 }
 
+/// M8: storms.  A small hot set of related queries (the same question about years 2, 400, 512, 1024, 4096 apart, the
+/// same day again, neighbouring days, holiday steps from different years, both genders of one birth) is answered
+/// first one query at a time, each as the only call of a fresh thread; then all worker threads answer the set over
+/// and over at the same time, each in its own order.  Every answer must equal the reference: a memo whose key and
+/// value do not change together is caught when two threads meet in it.
+fn m8(cfg: &Cfg, log: &mut Log) {
+  let c = cal();
+  let groups = cfg.tier.pick(27usize, 150usize);
+  let rounds = cfg.tier.pick(40usize, 80usize);
+  let threads = crate::util::threads().max(2);
+  let mut rng = Rng::new(mix(cfg.seed, 0x8C10));
+  for g in 0..groups {
+    let n = wide_day(&mut rng).clamp(c.dn(1100, 1, 1), c.dn(8800, 1, 1));
+    let (y, m, d) = c.date(n);
+    let same_md = |yy: i64| -> i64 {
+      let dd = if cal::exists(yy, m, d) { d } else { 1 };
+      c.dn(yy, m, dd)
+    };
+    let years: Vec<i64> = [0i64, 1, 2, -2, 400, -512, 512, 1024, -1024, 4096].iter().map(|k| y + k).filter(|yy| (30..=9900).contains(yy) && !(1560..=1600).contains(yy) && !(230..=245).contains(yy)).collect();
+    let mut hot: Vec<Q> = vec![];
+    let sod = rng.range(0, 86399);
+    match g % 9 {
+      0 => {
+        let i = rng.range(0, 23);
+        for yy in &years {
+          hot.push(Q::Term(*yy, i));
+          hot.push(Q::Term(*yy, (i + 1) % 24));
+        }
+      }
+      1 => {
+        for yy in &years {
+          hot.push(Q::TermDay(same_md(*yy)));
+          hot.push(Q::Series(c.dn(*yy, 12, 25)));
+          hot.push(Q::Series(c.dn(*yy, 6, 25)));
+        }
+      }
+      2 => {
+        for yy in &years {
+          hot.push(Q::Almanac(same_md(*yy)));
+        }
+        hot.push(Q::Almanac(n + 1));
+        hot.push(Q::Almanac(n + 2));
+      }
+      3 => {
+        // hours of a few days, each day asked at several hours
+        for k in 0..4i64 {
+          for h in [1i64, 9, 23] {
+            hot.push(Q::HourAlmanac((n + k) * 86400 + h * 3600 + sod % 3600));
+            hot.push(Q::EightChar((n + k) * 86400 + h * 3600 + sod % 3600));
+          }
+        }
+      }
+      4 => {
+        for yy in 2002..=2024i64 {
+          if yy % 3 == (g as i64 / 9) % 3 {
+            hot.push(Q::HolidayNext(c.dn(yy, 5, 1), 1));
+            hot.push(Q::HolidayNext(c.dn(yy, 10, 1), -1));
+            hot.push(Q::HolidayNext(c.dn(yy, 10, 1), 2));
+          }
+        }
+      }
+      5 => {
+        for yy in &years {
+          hot.push(Q::YearMonths(*yy));
+          hot.push(Q::LeapMonth(*yy));
+          hot.push(Q::Festival(*yy, 4));
+        }
+      }
+      6 => {
+        for yy in &years {
+          let a = same_md(*yy) * 86400 + sod;
+          hot.push(Q::ChildLimit(a, true));
+          hot.push(Q::ChildLimit(a, false));
+        }
+      }
+      7 => {
+        for yy in &years {
+          hot.push(Q::SolarToLunar(same_md(*yy)));
+          hot.push(Q::SixtyDay(same_md(*yy)));
+          hot.push(Q::Week(same_md(*yy), g as i64 % 7));
+        }
+      }
+      _ => {
+        for yy in &years {
+          hot.push(Q::Month(*yy, m));
+          hot.push(Q::MonthNext(*yy, m, 1));
+          hot.push(Q::LunarToSolar(*yy, m, d.min(29)));
+        }
+      }
+    }
+    hot.sort();
+    hot.dedup();
+    if hot.len() < 2 {
+      continue;
+    }
+    // references: one query at a time, each alone on a fresh thread
+    let mut reference: Vec<String> = Vec::with_capacity(hot.len());
+    for q in &hot {
+      let q2 = q.clone();
+      reference.push(std::thread::spawn(move || q2.answer()).join().unwrap_or_else(|_| "THREAD-PANIC".into()));
+    }
+    let bad: Mutex<Vec<(usize, String)>> = Mutex::new(vec![]);
+    let barrier = Barrier::new(threads);
+    let compared = std::sync::atomic::AtomicU64::new(0);
+    std::thread::scope(|sc| {
+      for t in 0..threads {
+        let (hot, reference, bad, barrier, compared) = (&hot, &reference, &bad, &barrier, &compared);
+        let seed = cfg.seed;
+        sc.spawn(move || {
+          let mut r = Rng::new(mix(seed, (g * 64 + t) as u64 ^ 0x9C10));
+          let mut order: Vec<usize> = (0..hot.len()).collect();
+          barrier.wait();
+          for _ in 0..rounds {
+            r.shuffle(&mut order);
+            for &k in &order {
+              // a thread prefers "its own" queries, so that hits and misses of a one-slot memo alternate
+              let k = if r.chance(1, 2) { (t + k * threads) % hot.len() } else { k };
+              let got = hot[k].answer();
+              compared.fetch_add(1, std::sync::atomic::Ordering::Relaxed);
+              if got != reference[k] {
+                let mut b = bad.lock().unwrap();
+                if b.len() < 5 {
+                  b.push((k, got));
+                }
+              }
+            }
+          }
+        });
+      }
+    });
+    log.ev(1);
+    log.nt(1);
+    log.count("m8.storm_groups", 1);
+    log.count("m8.answers_compared", compared.load(std::sync::atomic::Ordering::Relaxed));
+    for (k, got) in bad.into_inner().unwrap() {
+      log.violate(format!("C10/storm/{}", fnv(&hot[k].show()) % 1_000_000), "answer while other threads ask related queries", format!("{} among {} hot queries on {} threads", hot[k].show(), hot.len(), threads), got, format!("{} (alone on a fresh thread)", reference[k]));
+    }
+  }
+}
+
 /// M6: the very first library call of a fresh thread (thread-local or per-thread lazily initialised
 /// state has its initial value) must answer like a warm thread.  Range extremes are included because
 /// an "empty" initial value tends to coincide with the first element of a range.
@@ -1207,6 +1359,7 @@ pub fn run(cfg: &Cfg) -> (Log, Meta) {
   m5b(&mut log);
   m6(cfg, &p, &cold, &mut log);
   m7(cfg, &mut log);
+  m8(cfg, &mut log);
   m4(cfg, &mut log);
   if cfg.tier == Tier::Thorough {
     m3_miri(cfg, &mut log);
@@ -1224,9 +1377,11 @@ pub fn run(cfg: &Cfg) -> (Log, Meta) {
   log.floor("m5.cyclic_value_step_pairs", 20_000);
   log.floor("m6.first_calls_on_a_fresh_thread", 50);
   log.floor("m7.answers_compared", cfg.tier.pick(40_000, 400_000));
+  log.floor("m8.storm_groups", cfg.tier.pick(24, 120));
+  log.floor("m8.answers_compared", cfg.tier.pick(150_000, 2_000_000));
   let meta = Meta {
     rule: format!(
-      "pool of {} distinct valid queries (lunar months incl. the digit-colliding label pairs (Y,11)/(10Y+1,1), (Y,12)/(10Y+1,2), year month lists, both conversions, sexagenary days, festivals, eight characters, child limits, month stepping) and {} kinds of refused request; reference = cold answer after the guarded cache reset. M1: every collision pair in 4 orders; refusal of every kind at every position of {} short histories (length 1..6){}; {} random histories of 50..400 queries (30% collision labels, 10% refusals) - every answer equals its cold answer (lock poison flags are reported as notes, not judged). M2: {} rounds of 16 barrier-released threads on overlapping shuffled slices (120 of 160 queries each, refusals in every 4th thread), alternating cold/warm start and 0/50 injected yields between cache lookup and insert; double-computes counted from the hook (a run with none is inconclusive). M4: {} fresh processes answer the same 6,011-query list (pool, refusals, and 4,000 queries laid out as walks over related queries of the wider API surface: terms, term days, weeks, Julian dates, festivals by index and date, holidays, day and hour almanac, term-anchored series, leap months, pillars, clock arithmetic) in listed, reversed and shuffled orders (the last ones on 8 threads). M7: {} queries of the same wider surface laid out as single-thread walks over related queries (related day / year / instant / index, or another question about the same day); every answer equals the answer the same query gets as the only call of a fresh thread. M5: per-value memos of LunarDay/LunarHour on clones taken before/after the first derived call, relations (==, rendering, order, round trips) between warm and never-touched values, the day an hour hands out before and after hour-level questions; stems, branches and pillars stepped by every n in -130..130 from a warm source, a cold source and constructed directly. M6: 25 range-extreme queries and a sample of the pool, each as the very first library call of a fresh thread on a cold cache. {} distinct_nontrivial = distinct histories, rounds, process pairs.",
+      "pool of {} distinct valid queries (lunar months incl. the digit-colliding label pairs (Y,11)/(10Y+1,1), (Y,12)/(10Y+1,2), year month lists, both conversions, sexagenary days, festivals, eight characters, child limits, month stepping) and {} kinds of refused request; reference = cold answer after the guarded cache reset. M1: every collision pair in 4 orders; refusal of every kind at every position of {} short histories (length 1..6){}; {} random histories of 50..400 queries (30% collision labels, 10% refusals) - every answer equals its cold answer (lock poison flags are reported as notes, not judged). M2: {} rounds of 16 barrier-released threads on overlapping shuffled slices (120 of 160 queries each, refusals in every 4th thread), alternating cold/warm start and 0/50 injected yields between cache lookup and insert; double-computes counted from the hook (a run with none is inconclusive). M4: {} fresh processes answer the same 6,011-query list (pool, refusals, and 4,000 queries laid out as walks over related queries of the wider API surface: terms, term days, weeks, Julian dates, festivals by index and date, holidays, day and hour almanac, term-anchored series, leap months, pillars, clock arithmetic) in listed, reversed and shuffled orders (the last ones on 8 threads). M7: {} queries of the same wider surface laid out as single-thread walks over related queries (related day / year / instant / index, or another question about the same day); every answer equals the answer the same query gets as the only call of a fresh thread. M8: storms - hot sets of related queries (the same question about years 1, 2, 400, 512, 1024, 4096 apart, several hours of a few days, holiday steps from different years, both genders of one birth) answered first one at a time on fresh threads, then by all worker threads at once over and over, each in its own order. M5: per-value memos of LunarDay/LunarHour on clones taken before/after the first derived call, relations (==, rendering, order, round trips) between warm and never-touched values, the day an hour hands out before and after hour-level questions; stems, branches and pillars stepped by every n in -130..130 from a warm source, a cold source and constructed directly. M6: 25 range-extreme queries and a sample of the pool, each as the very first library call of a fresh thread on a cold cache. {} distinct_nontrivial = distinct histories, rounds, process pairs.",
       p.len(),
       refusals().len(),
       cfg.tier.pick(12, 120),
